@@ -36,7 +36,20 @@ static std::vector<Model> g_all;	 // every model (replay lookup, "other" model)
 static const Model* g_other_a = nullptr; // smallest sample, target of "assign over a loaded model"
 static const Model* g_other_b = nullptr; // second smallest (used when the model itself is g_other_a)
 static int g_depth = 1;
-static uint32_t g_big = 100; // models with more blocks than this: no history made of two DeleteBlock operations
+static uint32_t g_big = 24; // models with more blocks than this: no history made of two DeleteBlock operations
+static uint32_t g_huge = 100; // models with more blocks than this: a DeleteBlock is paired only with Save(default)
+static std::vector<int> g_model_depth; // per explored model: maximum history length
+static std::vector<uint32_t> g_model_blocks;
+
+// bound on histories of length 2 (every history of length <= 1 is always inside the bound)
+static bool pair_in_bound(uint32_t blocks, const std::string& a, const std::string& b) {
+	const bool da = a.compare(0, 4, "del:") == 0, db = b.compare(0, 4, "del:") == 0;
+	if (!da && !db) return true;
+	if (blocks <= g_big) return true;
+	if (da && db) return false;
+	if (blocks <= g_huge) return true;
+	return (da ? b : a) == "save";
+}
 
 using History = std::vector<std::string>;
 static const char* KINDS[3] = {"ctor", "assign-empty", "assign-loaded"};
@@ -410,11 +423,10 @@ static void run_unit(const Unit& u, const std::vector<std::string>& skips, Stats
 	History h1 = {g_menu0[u.model][(size_t) u.op1]};
 	AResult a1;
 	if (!run_history(m, h1, skip, st, &a1)) return;
-	if (g_depth < 2 || a1.cut) return;
-	const bool big = g_menu0[u.model].size() > 6 + (size_t) g_big;
+	if (g_model_depth[u.model] < 2 || a1.cut) return;
 	for (auto& op2 : a1.menu) {
 		if (vf::deadline_passed()) { st.capped("deadline reached inside unit " + m.name + " / " + h1[0]); return; }
-		if (big && h1[0].compare(0, 4, "del:") == 0 && op2.compare(0, 4, "del:") == 0) { st.add("histories_outside_bound_two_deletes_big_model"); continue; }
+		if (!pair_in_bound(g_model_blocks[u.model], h1[0], op2)) { st.add("histories_outside_bound_big_model"); continue; }
 		History h2 = {h1[0], op2};
 		run_history(m, h2, skip, st, nullptr);
 	}
@@ -436,7 +448,8 @@ int main(int argc, char** argv) {
 	Stats top;
 	const bool thorough = A.thorough();
 	g_depth = (int) A.geti("depth", thorough ? 2 : 1);
-	g_big = (uint32_t) A.geti("big", 100);
+	g_big = (uint32_t) A.geti("big", 24);
+	g_huge = (uint32_t) A.geti("huge", 100);
 	size_t nfiles = 0;
 	std::vector<Model> samples = snap::sample_models(A.repo, &nfiles);
 	if (samples.size() < 2) vf::fatal("no sample files under " + A.repo + "/tests");
@@ -451,10 +464,13 @@ int main(int argc, char** argv) {
 		auto m = snap::find_model(g_all, A.get("file"));
 		if (!m) vf::fatal("unknown model " + A.get("file"));
 		g_models.push_back(*m);
+		g_model_depth.push_back(g_depth);
 	}
 	else {
-		for (size_t i = 0; i < nsamples; i++) g_models.push_back(samples[i]);
-		for (auto& m : api) g_models.push_back(m);
+		// every model takes part with the empty history (copy, compare, destroy); the nsamples smallest
+		// sample files and the API-built models with histories up to g_depth
+		for (size_t i = 0; i < samples.size(); i++) { g_models.push_back(samples[i]); g_model_depth.push_back(i < nsamples ? g_depth : 0); }
+		for (auto& m : api) { g_models.push_back(m); g_model_depth.push_back(g_depth); }
 	}
 
 	if (A.has("probe")) { // timing aid (stderr only)
@@ -514,6 +530,8 @@ int main(int argc, char** argv) {
 		auto m = snap::find_model(g_all, c["file"].str());
 		if (!m) vf::fatal("replay: unknown model " + c["file"].str());
 		g_models = {*m};
+		g_model_depth = {2};
+		g_model_blocks = {0};
 		History h;
 		for (auto& e : c["history"].a) h.push_back(e.str());
 		g_depth = (int) h.size();
@@ -539,30 +557,35 @@ int main(int argc, char** argv) {
 		NifFile n;
 		must_load(n, g_models[i]);
 		g_menu0.push_back(menu_of(n));
+		g_model_blocks.push_back(n.GetHeader().GetNumBlocks());
 		menu_total += g_menu0.back().size();
 		units.push_back({i, -1});
-		if (g_depth >= 1)
+		if (g_model_depth[i] >= 1)
 			for (size_t o = 0; o < g_menu0.back().size(); o++) units.push_back({i, (int) o});
 	}
 	// big units first (better balance): a unit's size grows with its model's menu
 	auto weight = [&](const Unit& u) -> size_t {
-		if (u.op1 < 0 || g_depth < 2) return 0;
-		size_t menu = g_menu0[u.model].size();
-		bool big = menu > 6 + (size_t) g_big;
-		bool del = g_menu0[u.model][(size_t) u.op1].compare(0, 4, "del:") == 0;
-		return (big && del ? 6 : menu) * g_models[u.model].bytes.size();
+		if (u.op1 < 0) return (size_t) -1; // the empty history (copy equality) first
+		if (g_depth < 2) return 0;
+		size_t n = 0;
+		for (auto& op2 : g_menu0[u.model]) if (pair_in_bound(g_model_blocks[u.model], g_menu0[u.model][(size_t) u.op1], op2)) n++;
+		return n * g_models[u.model].bytes.size();
 	};
 	std::stable_sort(units.begin(), units.end(), [&](const Unit& a, const Unit& b) { return weight(a) > weight(b); });
 
 	vf::run_pool(units.size(), pc, [&](size_t u, const std::vector<std::string>& skips, long, Stats& st) { run_unit(units[u], skips, st); }, crash_fn, top);
 
+	size_t deep_models = 0;
+	for (int d : g_model_depth) if (d >= 1) deep_models++;
 	top.set_info("rule",
 				 vf::strf("scenario = model x copy kind {copy-construct, assign over empty, assign over a loaded model} x edited side {copy, source} x "
-						  "destruction order {source first, copy first} x every edit history of length <= %d over {RenameShape, MoveVertex, DeleteVertsForShape({0}), "
-						  "SetTextureSlot(0) on the first shape, hdr.DeleteBlock(i) for every block index i, Save(default), Clear()}, operations without a target in the "
-						  "reached state left out; for models with more than %u blocks histories made of two DeleteBlock operations are outside the bound; models = %zu (%zu of %zu distinct sample files out of %zu, smallest first, + %zu API-built); evaluations = scenarios executed; "
-						  "distinct_nontrivial = scenarios (each enumerated once) whose history changed the raw-save bytes of the edited side",
-						  g_depth, g_big, g_models.size(), std::min(nsamples, samples.size()), samples.size(), nfiles, api.size()));
+						  "destruction order {source first, copy first} x edit history. Every one of the %zu models (%zu distinct sample files out of %zu, + %zu API-built) runs the empty "
+						  "history (copy, compare with twin, destroy in either order); %zu models (the %zu smallest sample files + the API-built ones) run every history of length <= %d over "
+						  "{RenameShape, MoveVertex, DeleteVertsForShape({0}), SetTextureSlot(0) on the first shape, hdr.DeleteBlock(i) for every block index i, Save(default), Clear()}, "
+						  "operations without a target in the reached state left out; bound on length-2 histories by model size: <= %u blocks: all pairs; <= %u blocks: all pairs except two DeleteBlocks; "
+						  "larger: a DeleteBlock is paired only with Save(default), in either order. "
+						  "evaluations = scenarios executed; distinct_nontrivial = scenarios (each enumerated once) whose history changed the raw-save bytes of the edited side",
+						  g_models.size(), samples.size(), nfiles, api.size(), deep_models, std::min(nsamples, samples.size()), g_depth, g_big, g_huge));
 	top.set_info("history_depth", g_depth);
 	top.set_info("models", (long long) g_models.size());
 	top.set_info("sample_files_total", (long long) nfiles);
